@@ -168,6 +168,26 @@ struct CSide {
     free(src);
     compare_selected(m, PROP, "c-array-leak", "after array transfer through the C/C++ pair");
   }
+  // the C status is the C++ status whatever state standard output is in (here: /dev/full, every write fails)
+  void c_status_bad_stdout() {
+    fflush(stdout); std::cout.flush();
+    int keep = dup(1), full = open("/dev/full", O_WRONLY);
+    if (keep < 0 || full < 0) return;
+    hist("status of the printing C entry points with stdout on /dev/full, on " + m.sel + ":" + m.cur().sol);
+    dup2(full, 1);
+    int c1 = ::masa_list_mms(), x1 = masa_list_mms<double>();
+    int c2 = ::masa_display_param(), x2 = masa_display_param<double>();
+    int c3 = ::masa_display_array(), x3 = masa_display_vec<double>();
+    int c4 = ::masa_sanity_check(), x4 = masa_sanity_check<double>();
+    std::cout.flush(); fflush(stdout);
+    dup2(keep, 1); close(keep); close(full);
+    std::cout.clear(); clearerr(stdout);
+    n_status += 4;
+    LOG.count("status_comparisons_with_unwritable_stdout", 4);
+    if (c1 != x1 || c2 != x2 || c3 != x3 || c4 != x4)
+      hviol(PROP, "c-status-differs-with-unwritable-stdout", "with stdout unwritable the C entry points list_mms/display_param/display_array/sanity_check returned " + std::to_string(c1) + "," + std::to_string(c2) + "," +
+            std::to_string(c3) + "," + std::to_string(c4) + ", the C++ <double> calls " + std::to_string(x1) + "," + std::to_string(x2) + "," + std::to_string(x3) + "," + std::to_string(x4));
+  }
   void c_name_dim() {
     n_name++;
     char* buf = (char*)malloc(128);
@@ -184,7 +204,8 @@ struct CSide {
   void c_status() {
     auto& in = m.cur();
     n_status++;
-    int k = R->below(4);
+    int k = R->below(5);
+    if (k == 4) { c_status_bad_stdout(); return; }
     if (k == 0) {
       // sanity_check in whatever state the history has reached (non-zero after purge / empty vectors)
       CAP.begin(); int want = masa_sanity_check<double>(); CAP.end();
